@@ -68,6 +68,9 @@ def _closed(draw):
             "reuse_psi": draw(st.booleans()),
             # the conversion back to the laboratory frame is made while other energy units are current
             "convert_units": draw(st.sampled_from([None, None, "1/cm", "eV", "THz"])),
+            # further frame conversions of the finished evolution: converting from the rotating frame a second time
+            # (has to do nothing), or to the rotating frame and back again
+            "reconvert": draw(st.sampled_from([None, None, "from-again", "to-and-from"])),
             # the caller propagates while other energy units are current
             "prop_units": draw(st.sampled_from([None, None, None, "1/cm", "eV", "THz"])),
             # start of the time axis in units of the step
@@ -97,7 +100,10 @@ def _lindblad(draw):
             for j in range(i + 1, dim):
                 g[i][j] = g[j][i] = draw(st.integers(0, 40))
         pd = {"dtype": draw(st.sampled_from(["Lorentzian", "Gaussian"])), "rates": g}
-    return {"kind": "lindblad", "H": H, "ops": ops, "rates": rates, "pdeph": pd,
+    # (commuting case only, where the frame rotation leaves the dissipator unchanged) the Hamiltonian may carry a
+    # rotating-wave reference: propagated in that frame and converted back
+    lrwa = draw(st.sampled_from([None] + list(range(1, dim)))) if pd is not None else None
+    return {"kind": "lindblad", "H": H, "ops": ops, "rates": rates, "pdeph": pd, "rwa": lrwa,
             "form": draw(st.sampled_from(["op", "tensor", "converted"])),
             "A": draw(gens.density_matrix_spec(dim)),
             "order": draw(st.sampled_from([2, 4, 6])), "nref": draw(st.sampled_from([1, 2, 5])),
@@ -193,6 +199,8 @@ def _check_closed(case, ctx, rho0, coh):
     ctx.label("in-context" if inctx else "no-context", "t0!=0" if k0 else "t0=0")
     if rwa is not None and case.get("convert_units"):
         ctx.label("converted-back-in-units:" + case["convert_units"])
+    if rwa is not None and case.get("reconvert"):
+        ctx.label("frame-converted-again:" + case["reconvert"])
 
     def run():
         hu = case.get("ham_units")
@@ -229,6 +237,11 @@ def _check_closed(case, ctx, rho0, coh):
                 with qr.energy_units(case["convert_units"]):
                     rt.convert_from_RWA(ham)
             else:
+                rt.convert_from_RWA(ham)
+            if case.get("reconvert") == "from-again":
+                rt.convert_from_RWA(ham)
+            elif case.get("reconvert") == "to-and-from":
+                rt.convert_to_RWA(ham)
                 rt.convert_from_RWA(ham)
         return ham, numpy.array(rt.data)
     cu = _caller_units(qr, case, ctx)
@@ -354,12 +367,20 @@ def _check_lindblad(case, ctx, rho0, coh):
     ctx.mark_nontrivial(coh >= 0.05 and (offdiag or pd is not None) and active)
     ctx.label("form=" + case["form"], "pdeph=" + (pd["dtype"] if pd else "none"))
     L = orc.liouvillian_lindblad(H, ops, rates)
+    lrwa = case.get("rwa") if pd else None
+    Om = numpy.zeros(dim)
+    if lrwa is not None:
+        # frame frequencies: the mean energy of each block; the expansion acts on the rotating-frame generator
+        Om[:lrwa] = numpy.mean(numpy.diag(H)[:lrwa])
+        Om[lrwa:] = numpy.mean(numpy.diag(H)[lrwa:])
+        L = orc.liouvillian_lindblad(H - numpy.diag(Om), ops, rates)
+        ctx.label("lindblad:rwa")
     norm = max(1e-6, float(numpy.linalg.norm(L, 2)))
     dtr = case["x"] / norm
     dt = dtr * nref
     nt = case["nt"]
     ta = qr.TimeAxis(0.0, nt, dt)
-    tag = "lindblad/" + case["form"] + ("/pdeph-" + pd["dtype"] if pd else "")
+    tag = "lindblad/" + case["form"] + ("/pdeph-" + pd["dtype"] if pd else "") + ("/rwa" if lrwa is not None else "")
     gam = numpy.array(pd["rates"], dtype=float) / 1000.0 if pd else None
     if pd and pd["dtype"] == "Gaussian":
         gam = gam / 50.0          # rates of a Gaussian are per fs^2
@@ -368,6 +389,8 @@ def _check_lindblad(case, ctx, rho0, coh):
         with qr.energy_units("int"):
             ham = qr.Hamiltonian(data=H.copy())
         sbi = SystemBathInteraction([Operator(data=K.copy()) for K in ops], rates=tuple(rates))
+        if lrwa is not None:
+            ham.set_rwa([0, lrwa])
         lf = LindbladForm(ham, sbi, as_operators=(case["form"] != "tensor"))
         if case["form"] == "converted":
             lf.convert_2_tensor()
@@ -376,6 +399,8 @@ def _check_lindblad(case, ctx, rho0, coh):
         else:
             prop = ReducedDensityMatrixPropagator(ta, ham, lf)
         rt = cu(lambda: prop.propagate(ReducedDensityMatrix(data=rho0.copy()), method="short-exp-%d" % order, Nref=nref))
+        if lrwa is not None:
+            rt.convert_from_RWA(ham)
         return numpy.array(rt.data)
     cu = _caller_units(qr, case, ctx)
     ok, data = guarded(ctx, "lindblad/propagate", run, tag)
@@ -387,6 +412,10 @@ def _check_lindblad(case, ctx, rho0, coh):
     _valid(ctx, data, tag)
     exact_r, tau = orc.truncation_profile(L, dtr, order, rho0.reshape(-1), (nt - 1) * nref)
     exact = exact_r[::nref].reshape(nt, dim, dim)
+    if lrwa is not None:
+        # back to the laboratory frame
+        ph = numpy.exp(-1j * (Om[:, None] - Om[None, :])[None, :, :] * (numpy.arange(nt) * dt)[:, None, None])
+        exact = exact * ph
     if pd:
         # commuting parts: exact solution = (GKSL solution) x (dephasing factor), element by element
         tt = (numpy.arange(nt) * dt).reshape(nt, 1, 1)
